@@ -16,7 +16,6 @@ package static
 import (
 	"fmt"
 	"regexp"
-	"strings"
 
 	"github.com/attestantio/dirk/services/checker"
 	"github.com/attestantio/dirk/services/metrics"
@@ -126,17 +125,11 @@ func regexify(name string) (*regexp.Regexp, error) {
 	if name == "" {
 		name = "(?i).*"
 	}
-	// Anchor if required.
-	if !strings.HasPrefix(name, "^") {
-		name = fmt.Sprintf("^%s", name)
-	}
-	if !strings.HasSuffix(name, "$") {
-		name = fmt.Sprintf("%s$", name)
-	}
-	// Case insensitivity if required.
-	if !strings.HasPrefix(name, "(?i)") {
-		name = fmt.Sprintf("(?i)%s", name)
-	}
+	// Anchor the expression as a whole.  It is wrapped in a group so that the anchors apply to every
+	// alternative of an expression such as 'a|b', rather than just the first and last.
+	name = fmt.Sprintf("^(?:%s)$", name)
+	// Case insensitivity.
+	name = fmt.Sprintf("(?i)%s", name)
 
 	return regexp.Compile(name)
 }
